@@ -791,6 +791,30 @@ Qed.
 Lemma rloc_erase_indep L1 L2 p1 p2 e : erase_locs (rloc L1 p1 e) = erase_locs (rloc L2 p2 e).
 Proof. rewrite !rloc_erase. reflexivity. Qed.
 
+(* the Display text of an expression / variable does not read locations (nor the capture fields): it is the same for the
+   written AST and for the located AST the parser returns.  Used for the text field of `node` statements. *)
+Lemma display_expr_erase E e : display_expr E (erase_locs e) = display_expr E e.
+Proof.
+  induction e using expr_ind'; cbn [erase_locs display_expr]; try reflexivity.
+  - rewrite map_map. rewrite (map_ext_in _ (display_expr E)); [reflexivity|].
+    intros a Ha. rewrite Forall_forall in H. exact (H a Ha).
+  - rewrite map_map. rewrite (map_ext_in _ (display_expr E)); [reflexivity|].
+    intros a Ha. rewrite Forall_forall in H. exact (H a Ha).
+  - rewrite IHe1, IHe2. reflexivity.
+  - rewrite IHe1, IHe2. reflexivity.
+  - rewrite IHe. reflexivity.
+  - do 2 f_equal. f_equal. induction H as [|a args Ha Hargs IH]; [reflexivity|].
+    cbn [map flat_map]. rewrite Ha, IH. reflexivity.
+Qed.
+Lemma display_expr_rloc E L p e : display_expr E (rloc L p e) = display_expr E e.
+Proof. rewrite <- (display_expr_erase E (rloc L p e)), rloc_erase. apply display_expr_erase. Qed.
+Lemma display_variable_vloc E L p v : display_variable E (vloc L p v) = display_variable E v.
+Proof.
+  unfold vloc. destruct v as [n l|sc n l]; cbn [var_expr rloc expr_as_variable display_variable].
+  - reflexivity.
+  - rewrite display_expr_rloc. reflexivity.
+Qed.
+
 (* ---------------------------------------------------------------- UnicodeSane reduces to the external tables *)
 Lemma UnicodeSane_intro X :
   (forall c, 128 <= c -> x_ws X c = true -> x_alnum X c = false /\ x_alpha X c = false) -> UnicodeSane X.
